@@ -255,6 +255,11 @@ def gen_cases(rng, tier):
     for _ in range(n_expand):
         g = g_formula(rng, rng.randint(1, 6), rng.randint(1, 10), rng.randint(1, 4))
         cases.append({"kind": "expand", "g": g, "stmt": "await"} if _ % 3 == 2 else {"kind": "expand", "g": g})
+    for _ in range(n_expand // 3):
+        n_atoms = rng.randint(1, 5)
+        cs = [g_formula(rng, n_atoms, rng.randint(1, 6), rng.randint(0, 3)) for _ in range(rng.choice([1, 1, 2, 2, 3]))]
+        kinds = [rng.choice(["ev", "flow", "flow"]) for _ in range(5)]
+        cases.append({"kind": "expand", "stmt": "when", "cases": cs, "g": {"or": cs}, "kinds": kinds, "else": rng.random() < 0.4})
     for i in range(n_e2e):
         op = OPS[i % len(OPS)]
         n_atoms = rng.randint(1, 5)
@@ -418,8 +423,11 @@ def prims_to_json(elements):
             sp = e.spec
             j = spec_to_json(sp)
             started = _start_args(sp) if isinstance(sp, A.Spec) else None
+            mk = re.fullmatch(r"M(\d+|E)", sp.name or "") if isinstance(sp, A.Spec) else None
             if e.op == "match" and "a" in j:
                 out.append(["match", j["a"]])
+            elif e.op == "send" and mk and not sp.arguments and sp.members is None and sp.ref is None:
+                out.append(["send", 99 if mk.group(1) == "E" else int(mk.group(1))])
             elif e.op == "send" and started and sp.name == "StartFlow" and sp.ref is None:
                 out.append(["sendStart", started[0], nm(started[1])])
             elif e.op == "match" and started and sp.name == "FlowStarted" and e.info.get("internal") is True and isinstance(sp.ref, dict):
@@ -533,12 +541,47 @@ def run_expand(case):
     g = case["g"]
     A = _M["ast"]
     obs = {}
+    if case.get("stmt") == "when":
+        return run_expand_when(case)
     try:
         stmt = case.get("stmt", "match")
         kind = "ev" if stmt == "match" else "flow"
         grp = json_to_spec(g, kind) if not renderable(g) else parse_group(stmt, g, kinds_for(stmt), False)[2]
         obs["g_seen"] = spec_to_json(grp)
         els = _M["ex"].expand_elements([A.SpecOp(op=stmt, spec=grp)], {})
+        obs["prims"] = prims_to_json(els)
+    except Exception as e:  # noqa
+        obs["exc"] = f"{type(e).__name__}: {e}"[:200]
+    return obs
+
+
+def when_program(cases, kinds, has_else):
+    """`when g_0 / send M0() or when g_1 / send M1() … [else / send ME()]` over events E<i> and flows f<i>"""
+    atoms = sorted({a for g in cases for a in atoms_of(g)})
+    subs = "".join(f"flow f{i}\n  match E{i}()\n\n" for i in atoms if kinds[i] == "flow")
+    body = ""
+    for i, g in enumerate(cases):
+        body += f"  {'when' if i == 0 else 'or when'} {render(g, kinds)}\n    send M{i}()\n"
+    if has_else:
+        body += "  else\n    send ME()\n"
+    return subs + "flow main\n" + body + "  match Never()\n"
+
+
+def run_expand_when(case):
+    """the whole `when` statement (several cases, optional else) through the parser and ALL passes of expand_elements"""
+    A = _M["ast"]
+    obs = {}
+    try:
+        kinds = case["kinds"] + ["ev"] * 10
+        src = when_program(case["cases"], kinds, case.get("else", False))
+        obs["src"] = src
+        with _quiet():
+            r = _M["parse"](filename="", content=src, include_source_mapping=False, version="2.x")
+        main = [f for f in r["flows"] if f.name == "main"][0]
+        wh = [el for el in main.elements if isinstance(el, A.When)][0]
+        obs["gs_seen"] = [spec_to_json(x) for x in wh.when_specs]
+        obs["g_seen"] = {"or": obs["gs_seen"]}
+        els = _M["ex"].expand_elements([wh], _M["cfgs"](r["flows"]))
         obs["prims"] = prims_to_json(els)
     except Exception as e:  # noqa
         obs["exc"] = f"{type(e).__name__}: {e}"[:200]
@@ -619,6 +662,12 @@ def model_requests(case, obs):
         return []
     if kind == "norm":
         return [{"m": "C07.normalize", "g": obs["g_seen"]}]
+    if kind == "expand" and case.get("stmt") == "when":
+        kinds = case["kinds"] + ["ev"] * 10
+        atoms = sorted({a for g in obs["gs_seen"] for a in atoms_of(g)})
+        return [{"m": "C07.expandWhen", "cases": [{"g": g, "body": [["send", i]]} for i, g in enumerate(obs["gs_seen"])],
+                 "else": [["send", 99]] if case.get("else") else None, "flows": [a for a in atoms if kinds[a] == "flow"],
+                 "prims": obs.get("prims", [])}]
     if kind == "expand":
         return [{"m": "C07.expandAwait" if case.get("stmt") == "await" else "C07.expand", "g": obs["g_seen"], "prims": obs.get("prims", [])}]
     reqs = [{"m": "C07.markers", "g": obs["g_seen"], "seqs": [finish_view(s) for s in case["seqs"]]}]
@@ -664,6 +713,8 @@ def compare(case, obs, mouts):
             return f"expanded element list differs from the model at index {i}: impl {obs['prims'][i:i + 3]} model {mp[i:i + 3]}"
         if m["readback"] != m["dnf"]:
             return f"readBack of the real element list = {m['readback']} but normalize gives {m['dnf']}"
+        if case.get("stmt") == "when":
+            return None  # (labels of a when statement are duplicated by construction: the code emits case / else groups repeatedly)
         if not m["distinct"]:
             return "label names of the real element list are not distinct"
         return None
@@ -725,6 +776,12 @@ def _clauses_of_norm(n):
 def oracle(case, obs):
     kind = case["kind"]
     g = case["g"]
+    if kind == "expand" and case.get("stmt") == "when":
+        if "exc" in obs:
+            return None  # reported by the correspondence
+        if obs.get("gs_seen") != case["cases"]:
+            return f"the parser built {json.dumps(obs.get('gs_seen'))[:160]} for when cases spelled {json.dumps(case['cases'])[:160]}"
+        return None
     if kind in ("norm", "expand"):
         if "build_exc" in obs:
             return "could not build the group: " + obs["build_exc"]
@@ -859,6 +916,18 @@ def _sub_formulas(g):
 
 
 def shrink(case):
+    if case.get("stmt") == "when":
+        cs = case["cases"]
+        for i in range(len(cs)):
+            if len(cs) > 1:
+                rest = cs[:i] + cs[i + 1:]
+                yield dict(case, cases=rest, g={"or": rest})
+            for sub in _sub_formulas(cs[i]):
+                new = cs[:i] + [sub] + cs[i + 1:]
+                yield dict(case, cases=new, g={"or": new})
+        if case.get("else"):
+            yield dict(case, **{"else": False})
+        return
     if case["kind"] == "e2e":
         n = len(case["seqs"])
         if n > 8:
